@@ -392,6 +392,21 @@ def cases(run):
                             yield f"t2d {tx} -1 {L}"
     run.exhaustive = True
 
+    # ---- CDSs whose blocks OVERLAP (the library's model of a -1 / -2 programmed frameshift: exons abut or overlap, the
+    # CDS block of the first runs 1-2 bases into the second): every CDS-relative interval, every transcript-relative
+    # interval, both strands (outside the claimed scope of the specification: model vs implementation)
+    for exons, cds in (([(2, 6), (6, 10)], [(3, 7), (6, 9)]), ([(2, 6), (6, 10)], [(2, 8), (6, 10)]),
+                       ([(1, 5), (4, 9)], [(2, 5), (4, 8)]), ([(0, 4), (4, 7), (9, 12)], [(1, 5), (4, 7), (9, 11)])):
+        for st in "+-":
+            tx = enc_tx(14, st, exons, cds)
+            Ld = sum(e - s_ for s_, e in cds)
+            run.count("overlapping-cds-blocks")
+            for a in range(0, Ld + 1):
+                for b in range(a, Ld + 1):
+                    yield f"di2c {tx} {a} {b} +"
+                    yield f"di2c {tx} {a} {b} -"
+            yield f"d2c {tx} -1 {Ld}"
+            yield f"cdsloc {tx}"
     # ---- random larger transcripts
     n = 250 if quick else 6000
     for _ in range(n):
@@ -429,6 +444,14 @@ def cases(run):
                 if plen is not None:
                     plen = max(plen, max(e for _, e in cds))
                 run.count("rand:cds-not-a-stretch")
+            elif r > 0.88 and len(cds) > 1:
+                # a CDS block that runs 1-2 bases past its exon end: it overlaps the next CDS block when the two exons
+                # abut (the library's model of a -1 / -2 programmed frameshift) or reaches into the intron otherwise
+                j = rng.randrange(0, len(cds) - 1)
+                cds = cds[:j] + [(cds[j][0], cds[j][1] + rng.randint(1, 2))] + cds[j + 1:]
+                if plen is not None:
+                    plen = max(plen, max(e for _, e in cds))
+                run.count("rand:cds-block-runs-past-its-exon")
             elif rng.random() < 0.15 and len(cds) > 1:
                 # adjacent CDS blocks merged into one (same bases)
                 merged = [cds[0]]
